@@ -34,6 +34,14 @@ def run(ctx, ss):
         ctx.guard(r, f, ss)
 
 
+def _printer_name(flow):
+    names = {d.name for d in flow.defs if d.kind == "assign" and d.value is not None and txt(d.value) in ("print", "partial(print, file=output)")
+             or (d.kind == "assign" and d.value is not None and txt(d.value).startswith("partial(print"))}
+    if len(names) != 1:
+        raise AnchorMissing(f"no single local bound to print / partial(print, …) ({sorted(names)})")
+    return names.pop()
+
+
 def _bare_prints(fnode):
     """Calls of the builtin print that are not the binding of `printer` itself."""
     out = []
@@ -47,9 +55,8 @@ def c19_1(ctx, ss):
     n = 0
     for q in CONV:
         ff, flow = fn(ss, A2G, q)
-        binds = [d for d in flow.defs if d.name == "printer"]
-        if not binds:
-            raise AnchorMissing(f"{q}: no `printer` binding")
+        pn = _printer_name(flow)
+        binds = [d for d in flow.defs if d.name == pn]
         n += 1
         bare = _bare_prints(ff.node)
         k = f"{A2G}:{q} :: bare-print"
@@ -60,10 +67,16 @@ def c19_1(ctx, ss):
         else:
             ctx.holds("C19.1", k, where(ff, ff.node), f"{q}: all output goes through `printer`", len(pf.calls_in(ff.node)))
         # the two bindings: partial(print, file=output) under ret_output, print otherwise; the returned text is the buffer
-        texts = sorted(txt(d.value) for d in binds if d.value is not None)
-        okb = texts == ["partial(print, file=output)", "print"]
+        texts = sorted(flow.text(d.value) for d in binds if d.value is not None)
+        okb = texts == ["partial(print, file=StringIO())", "print"]
         rets = [r for r in pf.walk_no_nested(ff.node) if isinstance(r, ast.Return) and r.value is not None and not (isinstance(r.value, ast.Constant))]
-        okr = len(rets) == 1 and txt(rets[0].value) == "output.getvalue()"
+        okr = len(rets) == 1 and flow.text(rets[0].value) == "StringIO().getvalue()"
+        if okb and okr:
+            # the buffer that is returned is the one the printer writes to
+            pb = [d.value for d in binds if d.value is not None and txt(d.value).startswith("partial(")]
+            buf = next((kw.value for kw in pb[0].keywords if kw.arg == "file"), None) if pb else None
+            okr = isinstance(buf, ast.Name) and isinstance(rets[0].value, ast.Call) and isinstance(rets[0].value.func, ast.Attribute) \
+                and isinstance(rets[0].value.func.value, ast.Name) and rets[0].value.func.value.id == buf.id
         (ctx.holds if okb and okr else ctx.violation)("C19.1", f"{A2G}:{q} :: sink", where(ff, ff.node),
                                                       f"{q}: printer is print or print-to-buffer; the buffer is what is returned" if okb and okr
                                                       else f"{q}: printer bindings {texts}, returns {[txt(r.value) for r in rets]}")
@@ -114,8 +127,15 @@ def c19_2(ctx, ss):
                                           "Python: fixed ⇒ value only, free ⇒ value, error and limits — chosen by self.fix for both coefficients" if ok
                                           else "Python: the fixed/free arms are not chosen by self.fix for both coefficients")
     ff, flow = fn(ss, GOOFIT, "GooFitChain.make_amplitude")
-    d = [d for d in flow.defs if d.name == "fix" and d.kind == "assign"]
-    ok = len(d) == 1 and txt(d[0].value) == "'true' if self.fix else 'false'"
+    d = [d for d in flow.defs if d.kind == "assign" and d.value is not None and txt(d.value) == "'true' if self.fix else 'false'"]
+    names = _coeff_names(ff.node)
+    # the flag is the hole right after the coefficient name in both declarations
+    flags = set()
+    for c, s_, t, js, b in names:
+        m = re.search(r'_[ri]", \{(\w+)\}', "".join(str(p.value) if isinstance(p, ast.Constant) else "{" + txt(p.value) + "}" for p in js.values))
+        for mm in re.finditer(r'_[ri]", \{(\w+)\}', "".join(str(p.value) if isinstance(p, ast.Constant) else "{" + txt(p.value) + "}" for p in js.values)):
+            flags.add(mm.group(1))
+    ok = len(d) == 1 and flags == {d[0].name}
     (ctx.holds if ok else ctx.violation)("C19.2", f"{GOOFIT}:GooFitChain.make_amplitude :: fixedness", where(ff, ff.node),
                                           "C++: the fixed flag is 'true' iff self.fix" if ok else "C++: the fixed flag is not 'true' iff self.fix")
 
@@ -137,13 +157,21 @@ def c19_3(ctx, ss):
         ok = cfg.dominates(n["read"], n["intro"]) and cfg.dominates(n["intro"], n["pars"]) and cfg.dominates(n["pars"], n["lines"]) \
             and not cfg.reachable(n["lines"], n["pars"]) and not cfg.reachable(n["pars"], n["intro"])
         # each goes through printer
-        via = all(isinstance(stmt_of(ff, c[0]), ast.Expr) and txt(stmt_of(ff, c[0]).value.func) == "printer" for c in (intro, pars, lines))
+        pn = _printer_name(flow)
+        via = all(isinstance(stmt_of(ff, c[0]), ast.Expr) and txt(stmt_of(ff, c[0]).value.func) == pn for c in (intro, pars, lines))
         (ctx.holds if ok and via else ctx.violation)("C19.3", k, where(ff, ff.node),
                                                      f"{q}: read → intro (constants, resonance variables) → parameters → amplitudes, each printed" if ok and via
                                                      else f"{q}: declarations are not emitted before the lines that use them (order / printing changed)")
         # arguments
         lp = enclosing(ff, lines[0], (ast.For,))
-        oka = txt(intro[0].args[0]) == "all_states" and lp and txt(flow.expand(lp[0].iter)).startswith("enumerate(") and txt(lines[0].args[0]) == "all_states[1:]"
+        def is_states(e):
+            if not isinstance(e, ast.Name):
+                return False
+            ds = flow.defs_of(e)
+            return len(ds) == 1 and ds[0].kind == "assign" and ds[0].path == (1,) and ds[0].value is read[0]
+        la = lines[0].args[0] if lines[0].args else None
+        oka = is_states(intro[0].args[0]) and bool(lp) and txt(flow.expand(lp[0].iter)).startswith("enumerate(") \
+            and isinstance(la, ast.Subscript) and is_states(la.value) and txt(la.slice) == "1:"
         (ctx.holds if oka else ctx.violation)("C19.3", k + " :: args", where(ff, ff.node),
                                               f"{q}: intro gets all states; every line is emitted for the daughters all_states[1:]" if oka
                                               else f"{q}: make_intro / to_goofit do not receive all_states / all_states[1:]")
@@ -170,8 +198,9 @@ def c19_4(ctx, ss):
         k = f"{GOOFIT}:{cls_} :: symbols"
         # _M / _W : use = {par}_M with par = self.particle.programmatic_name ; declaration = name + "_M" with name = particle.programmatic_name
         uses = _suffix_uses(ls.node, ("_M", "_W"))
-        par_defs = [d for d in lsflow.defs if d.name == "par" and d.kind == "assign"]
-        ok_use = bool(uses) and all(b == "par" and sfx in ("_M", "_W") for b, sfx in uses) and {sfx for _, sfx in uses} == {"_M", "_W"} and len(par_defs) == 1 and txt(par_defs[0].value) == "self.particle.programmatic_name"
+        bases = {b for b, _ in uses}
+        par_defs = [d for d in lsflow.defs if len(bases) == 1 and d.name == next(iter(bases)) and d.kind == "assign"]
+        ok_use = bool(uses) and len(bases) == 1 and all(sfx in ("_M", "_W") for b, sfx in uses) and {sfx for _, sfx in uses} == {"_M", "_W"} and len(par_defs) == 1 and txt(par_defs[0].value) == "self.particle.programmatic_name"
         decl = []
         for c in pf.calls_in(mi.node):
             for kw in getattr(c, "keywords", []):
@@ -185,7 +214,7 @@ def c19_4(ctx, ss):
         use_s = [d for d in lsflow.defs if d.kind == "assign" and d.value is not None and "_SplineArr" in txt(d.value)]
         ok_us = len(use_s) == 1 and txt(use_s[0].value) == "programmatic_name(self.name) + '_SplineArr'"
         decl_s = [x for x in pf.walk_no_nested(mp.node) if isinstance(x, ast.BinOp) and "_SplineArr" in txt(x) and "programmatic_name(" in txt(x)]
-        ok_ds = any(txt(x).replace('"', "'").find("programmatic_name(spline) + '_SplineArr") >= 0 for x in decl_s)
+        ok_ds = any(re.search(r"programmatic_name\((\w+)\) \+ '_SplineArr", txt(x).replace('"', "'")) for x in decl_s)
         (ctx.holds if ok_us and ok_ds else ctx.violation)("C19.4", k + " :: spline", where(ls, ls.node),
                                                           f"{cls_}: programmatic_name(<name>)_SplineArr declared in make_pars and used by GSpline line shapes" if ok_us and ok_ds
                                                           else f"{cls_}: the spline array is declared / used under different names")
@@ -231,6 +260,10 @@ def c19_5(ctx, ss):
     for cls_ in CH:
         m = mf.classes[cls_].methods["make_amplitude"]
         hs = set(sibling.holes(m.node, REN))
+        from ..core.defuse import flow_of
+        mfl = flow_of(ss, m)
+        cnt = [d.name for d in mfl.defs if d.kind == "assign" and d.value is not None and txt(d.value) == "len(self.list_structure(final_states))"]
+        hs |= {"{n}"} if cnt and ("{" + cnt[0] + "}") in hs else set()
         miss = sorted(need - hs)
         (ctx.holds if not miss else ctx.violation)("C19.5", f"{GOOFIT}:{cls_}.make_amplitude :: data", where(m, m.node),
                                                     f"{cls_}.make_amplitude emits amplitude name, both values with errors (6 digits) and the permutation count" if not miss
@@ -267,10 +300,10 @@ def c19_6(ctx, ss):
                 for c in sorted(pf.calls_in(ff.node, nested=True), key=lambda c: (c.lineno, c.col_offset)):
                     if isinstance(c.func, ast.Name) and c.func.id == local:
                         n += 1
-                        occ[txt(c)] = occ.get(txt(c), 0) + 1
+                        occ[local] = occ.get(local, 0) + 1
                         given = len(c.args) + len([kw for kw in c.keywords if kw.arg in pos])
                         star = any(isinstance(x, ast.Starred) for x in c.args) or any(kw.arg is None for kw in c.keywords)
-                        k = f"{m}:{q} :: {txt(c)[:60]}#{occ[txt(c)]}"
+                        k = f"{m}:{q} :: {local}() call #{occ[local]}"
                         if star:
                             continue
                         if given < n_req or (len(c.args) > len(pos) and a.vararg is None):
